@@ -32,6 +32,7 @@ pub fn op_kind(op: &Op) -> &'static str {
         Op::Swap { .. } => "swap",
         Op::Update { .. } => "update",
         Op::Repos { .. } => "reposition",
+        Op::IncTa { .. } => "inc_wrong_array",
         Op::CollectFees { .. } => "collect_fees",
         Op::CollectProtocol { .. } => "collect_protocol",
         Op::Clock(_) => "clock",
